@@ -311,6 +311,11 @@ def run_c09(spec: Dict[str, Any]) -> "tuple[List[Violation], Dict[str, Any]]":
                             kind = "requeue-breaks-typed-labels"
                         v.append(Violation(kind, f"send {si['i']} delivery {j} (after {after}): {where} labels {jsonable(user_labels(g[where]))} != sent {jsonable(expect)}"))
                         break
+            if got and "pre" in got[0]:
+                # the first delivery of a call carries no delivery counters: nobody has retried or requeued *it* yet
+                stray = {k: got[0]["pre"][k] for k in BOOKKEEPING if k in got[0]["pre"]}
+                if stray:
+                    v.append(Violation("first-delivery-carries-counters-of-another-call", f"send {si['i']}: its first delivery arrived with {stray}"))
             for j, g in enumerate(got):
                 # the retry counter of a result is the one the message arrived with: what the retry middleware adds for
                 # the re-send belongs to the *next* delivery (requeue() counts on the received message itself before it
